@@ -130,3 +130,19 @@ Theorem C01_conflict_stale_buffer_refuted :
   Forall (item_ok nat cl) is /\
   outp nat (run nat cl leaky (concat (map (item_lines nat) is))) <> concat (map (item_shown nat) is).
 Proof. exact stale_ancestor_shown_again. Qed.
+
+(* The submodule short-form handler sits before the hunk-line handler.  Its shape is pinned from the
+   source on every run (GenSubmodule.v); it takes a line out of the ordinary hunk-line path only when
+   the line is a submodule pointer line of the marker its state expects (the repaired defect F34 was
+   that any line with the prefix was taken and then dropped).  What it does with pointer lines is the
+   known finding F33. *)
+From DV Require Import Submodule SubmoduleFacts GenSubmodule.
+
+Theorem C01_submodule_handler_is_modelled : submodule_handler_is_modelled = true.
+Proof. reflexivity. Qed.
+
+Theorem C01_submodule_claims_only_pointer_lines : forall co st l r,
+  sub_handle co st l = Some r ->
+  (st = AfterHunkHeader /\ exists c, sub_pointer (lit "-") l = Some c) \/
+  (exists m, st = HeldMinus m /\ exists c, sub_pointer (lit "+") l = Some c).
+Proof. exact claims_only_pointer_lines. Qed.
